@@ -343,6 +343,27 @@ def emit(seed, tier, with_numpy=False):
             x = [re0] + [0.5 * (i + 1) for i in range(n - 1)]
             ops = [{"op": "radd_f", "a": 0, "c": 0.0}, {"op": "recip", "a": n}]
             jobs.append({"kind": "driver", "driver": "gradient", "x": [fbits(v) for v in x], "ops": bitsify(ops)})
+    # rarely used operand kinds on either side of an operator and as exponents: int subclasses, float subclasses, objects
+    # that only define __float__ or __index__, Decimal.  The bindings may refuse them (a TypeError is tolerated); if they
+    # return a value it must be the Rust operation on the float the object converts to.
+    for cname, nparts in CLASSES.items():
+        parts = [1.25] + [0.5 + 0.25 * k for k in range(nparts - 1)]
+        for kind, c in (("int_enum", 3.0), ("float_subclass", 1.5), ("has_float", 2.5), ("has_index", 2.0), ("decimal", 0.5), ("bool", 1.0), ("fraction", 0.75)):
+            for name in ("add_f", "radd_f", "sub_f", "rsub_f", "mul_f", "rmul_f", "div_f", "rdiv_f", "pow_f"):
+                op = {"op": name, "a": 0, "c": fbits(c), "c_val": c, "ckind": kind}
+                jobs.append({"kind": "scalar", "class": cname, "inputs": [[fbits(p) for p in parts]], "ops": [op], "tolerate_raise": True})
+    # callables that hand back an input unchanged, or the same object twice
+    for drv, nin in (("first_derivative", 1), ("second_derivative", 1), ("third_derivative", 1), ("second_partial_derivative", 2), ("third_partial_derivative", 3),
+                     ("gradient", 1), ("gradient", 3), ("gradient", 11), ("hessian", 2), ("hessian", 11), ("third_partial_derivative_vec", 3), ("partial_hessian", 2), ("jacobian", 2), ("jacobian", 3)):
+        x = [0.75 + 0.5 * i for i in range(nin)]
+        job = {"kind": "driver", "driver": drv, "x": [fbits(v) for v in x], "ops": []}
+        if drv == "partial_hessian":
+            job["x"], job["y"] = [fbits(x[0])], [fbits(x[1])]
+        if drv == "jacobian":
+            job["rets"] = [nin - 1, nin - 1, 0]
+        if drv == "third_partial_derivative_vec":
+            job["ijk"] = [2, 2, 0]
+        jobs.append(job)
     # gradual underflow inside a driver: a callable whose intermediates are subnormal must see them exactly as the Rust
     # closure does (a driver that switches the floating-point environment - flush-to-zero - while the callable runs would not)
     tiny = [{"op": "mul_f", "a": 0, "c": 1e-300}, {"op": "mul_f", "a": -1, "c": 1e-10}, {"op": "add", "a": -1, "b": -1}, {"op": "mul_f", "a": -1, "c": 0.5}]
@@ -466,6 +487,18 @@ def as_kind(c, kind):
     if kind == "fraction":
         from fractions import Fraction
         return Fraction(c)
+    if kind == "int_enum":
+        import enum
+        return enum.IntEnum("K", {"V": int(c)}).V
+    if kind == "float_subclass":
+        return type("F", (float,), {})(c)
+    if kind == "has_float":
+        return type("HasFloat", (), {"__float__": lambda self: c})()
+    if kind == "has_index":
+        return type("HasIndex", (), {"__index__": lambda self: int(c)})()
+    if kind == "decimal":
+        from decimal import Decimal
+        return Decimal(c)
     import numpy as np
     return {"np_float64": np.float64, "np_float32": np.float32, "np_int64": np.int64}[kind](c)
 
@@ -663,6 +696,8 @@ def run_job(nd, job, ref):
             except BaseException as e:  # noqa: BLE001 - includes pyo3's PanicException
                 if isinstance(e, (SystemExit, MemoryError, KeyboardInterrupt)):
                     raise
+                if job.get("tolerate_raise") and isinstance(e, TypeError):
+                    return None  # a rarely used operand kind the bindings refuse: allowed
                 return {"at": n_in + k, "what": f"step {k} ({op['op']})", "python_raised": f"{type(e).__name__}: {str(e)[:200]}",
                         "rust_display": ref["regs"][n_in + k]["repr"]}
         for i, (r, rr) in enumerate(zip(regs, ref["regs"])):
